@@ -18,7 +18,7 @@ ASSUMPTIONS = ["dyadic penalties: scores compared exactly (the property allows 1
 
 
 def budget(tier):
-    return 700 if tier == "quick" else 14000
+    return 2500 if tier == "quick" else 25000
 
 
 gen = c03.gen
